@@ -41,7 +41,7 @@ def r_recover_domain(rep, prog):
         if s["k"] == "assign":
             for o in lib.operands_of_rv(s["rv"]) + ([{"k": "copy", "place": s["rv"]["place"]}] if s["rv"]["k"] in ("ref",) else []):
                 pass
-    rep.floor(rule, "bitfield selectors in recover", len(sites), 3)
+    rep.floor(rule, "bitfield selectors in recover", len(sites), 1)
     guards = []
     for bi, t in sites:
         sel = tm.operand(t["args"][1])
